@@ -18,12 +18,15 @@ Definition txn_in_scope (sb : bstate) (se : estate) (t : txn_req) : Prop :=
   | None => False
   end.
 
-(* point reads, range reads over [a, b) with a < b and any limit (minus F3: more than limit+1 keys
-   under a limit), counts — at the latest revision *)
+(* point reads and range reads over [a, b) with a < b and any limit (minus F3: more than limit+1 keys under a limit) at
+   any revision from 0 (= the latest) up to the current one (the models have no compaction; a revision above the current
+   one is outside: etcd answers ErrFutureRev; minus F7: revision 1888 with a range end is the partition request);
+   counts at the latest revision (the Count path ignores the request's revision) *)
 Inductive read_in_scope (se : estate) : range_req -> Prop :=
-| RsGet k lim : k <> [] -> read_in_scope se (mkRange k [] lim 0 false false)
-| RsList a b limit : a <> [] -> b <> [] -> b <> [0%N] -> bltb a b = true -> limit + 1 < two63 ->
-    (limit <= 0 \/ lenZ (e_range (e_cur se) a b) <= limit + 1) -> read_in_scope se (list_req a b limit)
+| RsGet k lim z : k <> [] -> 0 <= z <= e_now se -> read_in_scope se (mkRange k [] lim z false false)
+| RsList a b limit z : a <> [] -> b <> [] -> b <> [0%N] -> bltb a b = true -> 0 <= z <= e_now se -> z <> partition_magic ->
+    limit + 1 < two63 ->
+    (limit <= 0 \/ lenZ (e_range (view se z) a b) <= limit + 1) -> read_in_scope se (list_req_at a b limit z)
 | RsCount a b : a <> [] -> b <> [] -> b <> [0%N] -> lenZ (e_range (e_cur se) a b) < two63 ->
     read_in_scope se (count_req a b).
 
@@ -76,8 +79,8 @@ Lemma sim_read_scope sb se r : R sb se -> bounded sb -> read_in_scope se r ->
   proj_range (shim_range sb r) = proj_range (etcd_range se r).
 Proof.
   intros HR Hb Hs. destruct Hs.
-  - apply sim_get; assumption.
-  - apply sim_list; assumption.
+  - apply sim_get_at; try assumption. rewrite <- (R_now _ _ HR). assumption.
+  - apply sim_list_at; try assumption. rewrite <- (R_now _ _ HR). assumption.
   - apply sim_count; assumption.
 Qed.
 
@@ -104,17 +107,18 @@ Proof.
       * intros p [<-|Hin]; [|apply IH2; assumption]. cbn. discriminate.
 Qed.
 
-(* from the empty store: responses agree under the projection, nothing is rejected, and the two
-   stores hold the same keys, values and mod revisions in the same order *)
+(* from the empty store: responses agree under the projection, nothing is rejected, the two stores hold the same keys,
+   values and mod revisions in the same order, and so do the two MVCC histories at every revision up to the current one *)
 Lemma supported_from_init : forall base qs,
   in_scope_run (b_init base) (e_init (Z.of_N base)) qs ->
   let '(sb', se', ps) := run_both (b_init base) (e_init (Z.of_N base)) qs in
   Forall (fun p => fst p = snd p) ps /\ (forall p, In p ps -> fst p <> PT None)
-  /\ map pk (e_cur se') = b_proj (b_kv sb') (b_rev sb').
+  /\ map pk (e_cur se') = b_proj (b_kv sb') (b_rev sb')
+  /\ (forall q, (q <= b_rev sb')%N -> map pk (hist_at (e_hist se') (Z.of_N q)) = b_proj (b_kv sb') q).
 Proof.
   intros base qs Hs. pose proof (supported_run qs _ _ (R_init base) Hs) as H.
   destruct (run_both (b_init base) (e_init (Z.of_N base)) qs) as [[sb' se'] ps].
-  destruct H as (H1 & H2 & H3). split; [assumption|]. split; [assumption|]. apply store_eq. assumption.
+  destruct H as (H1 & H2 & H3). split; [assumption|]. split; [assumption|]. split; [apply store_eq; assumption|apply (R_hist _ _ H3)].
 Qed.
 
 (* ------------------------------------------------------------------ watch: the two event logs agree *)
@@ -296,6 +300,17 @@ Lemma refute_partition_magic :
   /\ etcd_range (mkE 5000 5000 [] [] []) r = ROk 5000 [] 0 false.
 Proof. vm_compute. eexists. eexists. split; reflexivity. Qed.
 
+(* the boundary of the read scope: a count carrying a past revision is answered at the latest one (the Count path of
+   backendShim passes key and end only); etcd counts the store as of that revision *)
+Lemma count_at_revision_witness :
+  let t1 := q_create kA v1 (UMod 0) 0 in
+  let t2 := q_create kB v1 (UMod 0) 0 in
+  let r := mkRange kLo kHi 0 11 true false in
+  let sb := fst (shim_txn (fst (shim_txn (b_init 10) t1)) t2) in
+  let se := fst (etcd_txn (fst (etcd_txn (e_init 10) 11 t1)) 12 t2) in
+  proj_range (shim_range sb r) = Some ([], 2, false) /\ proj_range (etcd_range se r) = Some ([], 1, false).
+Proof. vm_compute. split; reflexivity. Qed.
+
 (* non-vacuity: a history in scope that exercises every shape and read, with a stale revision *)
 Definition sample_history : list kreq :=
   [KTxn (q_create kA v1 (UMod 0) 0);                 (* rev 11 *)
@@ -311,7 +326,12 @@ Definition sample_history : list kreq :=
    KTxn (q_update kA v1 (UMod 13) 0 0);              (* deleted key, its last revision: fails *)
    KTxn (q_deleteu kB 0);
    KTxn (q_delete kB (UMod 15) 0);                   (* missing key *)
-   KRead (list_req kLo kHi 0)].
+   KRead (list_req kLo kHi 0);
+   KRead (mkRange kA [] 0 11 false false);           (* past revisions: /a as first created *)
+   KRead (mkRange kA [] 0 12 false false);           (* a burnt revision names the store of 11 *)
+   KRead (list_req_at kLo kHi 0 15);                 (* both keys live *)
+   KRead (list_req_at kLo kHi 1 17);                 (* /a deleted, /b still there *)
+   KRead (mkRange kB [] 0 14 false false)].          (* before /b existed *)
 
 Ltac scope_tac :=
   repeat match goal with
@@ -321,6 +341,7 @@ Ltac scope_tac :=
          | |- _ \/ _ => first [left; vm_compute; intros; discriminate | right; vm_compute; intros; discriminate]
          | |- _ = _ => reflexivity
          | |- _ -> False => let H := fresh in intros H; discriminate H
+         | |- _ <> partition_magic => let H := fresh in unfold partition_magic; intros H; discriminate H
          | |- _ <> _ => let H := fresh in intros H; discriminate H
          | |- (_ < _)%Z => vm_compute; reflexivity
          | |- (_ <= _)%Z => vm_compute; intros; discriminate
@@ -362,4 +383,92 @@ Proof.
   - vm_compute in Hr. discriminate Hr.
   - (* the shim wrote /b, the interpreter wrote /a *)
     pose proof (R_kv _ _ HR kA) as Hk. vm_compute in Hk. discriminate Hk.
+Qed.
+
+(* ------------------------------------------------------------------ what a recognised request is executed as *)
+
+(* The recognisers look at part of the request only (F4).  Every recognised request is executed exactly as the canonical
+   request of the shape it was taken for, built from the fields the recogniser reads: key and value of the put, compared
+   key and put value for an update, deleted key and compared revision for a delete.  A create whose put carries a flag is
+   rejected. *)
+Definition executed_as (t : txn_req) : option txn_req :=
+  match isCreate t with
+  | Some p => if p_ign_lease p || p_ign_val p || p_prev_kv p then None
+              else Some (q_create (p_key p) (p_val p) (UMod 0) (p_lease p))
+  | None =>
+      match isDelete t with
+      | Some (rev, key) => Some (match t_cmp t with [] => q_deleteu key 0 | _ => q_delete key (UMod rev) 0 end)
+      | None =>
+          match isUpdate t with
+          | Some (rev, key, val, lease) => Some (q_update key val (UMod rev) lease 0)
+          | None => None
+          end
+      end
+  end.
+
+Lemma canonical_q_create k v lease : canonical (q_create k v (UMod 0) lease) = Some (ShCreate k v).
+Proof. unfold canonical, q_create, q_cmp, q_put, mod_eq_on, plain_put, is_mod_eq, get_mod; cbn. rewrite !beqb_refl. reflexivity. Qed.
+Lemma canonical_q_update k v e lease : canonical (q_update k v (UMod e) lease 0) = Some (ShUpdate k v e).
+Proof. unfold canonical, q_update, q_cmp, q_put, q_get, mod_eq_on, plain_put, plain_get, is_mod_eq, get_mod; cbn. rewrite !beqb_refl. reflexivity. Qed.
+Lemma canonical_q_delete k e : canonical (q_delete k (UMod e) 0) = Some (ShDelete k e).
+Proof. unfold canonical, q_delete, q_cmp, q_del, q_get, mod_eq_on, plain_del, plain_get, is_mod_eq, get_mod; cbn. rewrite !beqb_refl. reflexivity. Qed.
+Lemma canonical_q_deleteu k : canonical (q_deleteu k 0) = Some (ShDeleteU k).
+Proof. unfold canonical, q_deleteu, q_del, q_get, plain_del, plain_get; cbn. rewrite !beqb_refl. reflexivity. Qed.
+
+Lemma recognised_executed_as sb t : recognised t = true ->
+  match executed_as t with
+  | Some t' => shim_txn sb t = shim_txn sb t' /\ canonical t' <> None
+  | None => shim_txn sb t = (sb, TErr)
+  end.
+Proof.
+  unfold recognised, executed_as. intros Hr. destruct (isCreate t) as [p|] eqn:Ec.
+  - destruct (p_ign_lease p || p_ign_val p || p_prev_kv p) eqn:Ef.
+    + unfold shim_txn. rewrite Ec, Ef. reflexivity.
+    + split; [|rewrite canonical_q_create; discriminate].
+      unfold shim_txn at 1 2. rewrite Ec, Ef. reflexivity.
+  - destruct (isDelete t) as [[rev key]|] eqn:Ed.
+    + split; [|destruct (t_cmp t); [rewrite canonical_q_deleteu|rewrite canonical_q_delete]; discriminate].
+      unfold shim_txn at 1. rewrite Ec, Ed.
+      destruct (t_cmp t) as [|c cs] eqn:Ecmp.
+      * assert (rev = 0).
+        { unfold isDelete in Ed. rewrite Ecmp in Ed. destruct (t_fail t); [|discriminate].
+          destruct (t_succ t) as [|[| | |] [|[| | |] [|]]]; try discriminate. injection Ed as <- _. reflexivity. }
+        subst rev. reflexivity.
+      * reflexivity.
+    + destruct (isUpdate t) as [[[[rev key] val] lease]|] eqn:Eu; [|discriminate Hr].
+      split; [|rewrite canonical_q_update; discriminate].
+      unfold shim_txn at 1. rewrite Ec, Ed, Eu. reflexivity.
+Qed.
+
+(* on a request that is one of the shapes the translation changes nothing the shapes say *)
+Lemma executed_as_canonical t sh : canonical t = Some sh -> exists t', executed_as t = Some t' /\ canonical t' = Some sh.
+Proof.
+  intros Hc. pose proof (canonical_inv t sh Hc) as Hinv. destruct sh as [k v|k v e|k e|k].
+  - destruct Hinv as (u & lease & Hu & ->). exists (q_create k v (UMod 0) lease). split; [|apply canonical_q_create].
+    unfold executed_as, isCreate, q_create, q_cmp, q_put, get_mod; cbn. rewrite Hu. reflexivity.
+  - destruct Hinv as (u & lease & lim & Hu & ->). exists (q_update k v (UMod e) lease 0). split; [|apply canonical_q_update].
+    unfold executed_as; cbn. unfold get_mod; cbn. rewrite Hu. reflexivity.
+  - destruct Hinv as (u & lim & Hu & ->). exists (q_delete k (UMod e) 0). split; [|apply canonical_q_delete].
+    unfold executed_as; cbn. unfold get_mod; cbn. rewrite Hu. reflexivity.
+  - destruct Hinv as (lim & ->). exists (q_deleteu k 0). split; [|apply canonical_q_deleteu]. reflexivity.
+Qed.
+
+(* the witness of F4 under the translation: a compare on /b, a put of /a, a failure get of /b is executed as the guarded
+   update of /b *)
+Lemma executed_as_witness :
+  executed_as (mkTxn [q_cmp kB (UMod 0)] [q_put kA v2 0] [q_get kB 0]) = Some (q_update kB v2 (UMod 0) 0 0).
+Proof. reflexivity. Qed.
+
+(* non-vacuity of the "rejected" alternatives *)
+Lemma unsupported_example :
+  let t := mkTxn [] [q_put kA v1 0] [] in
+  txn_wf t = true /\ recognised t = false /\ rejected t (b_init 10) (e_init 10).
+Proof.
+  cbv zeta. split; [reflexivity|]. split; [reflexivity|]. unfold rejected.
+  rewrite (not_recognised (b_init 10) (mkTxn [] [q_put kA v1 0] []) eq_refl eq_refl). cbn [fst snd]. split; [reflexivity|]. split; [reflexivity|]. split; [reflexivity|]. apply (R_tick_same _ _ (R_init 10)).
+Qed.
+
+Lemma hostile_example : rejected (q_update kA v1 (UMod (-1)) 0 0) (b_init 10) (e_init 10).
+Proof.
+  apply sim_update_hostile; [apply (R_init 10)|unfold bounded, two63; cbn; lia|]. left. cbn. unfold two63. lia.
 Qed.
